@@ -639,7 +639,7 @@ def history_probes(thorough):
     out = []
     for fn, fmt in PROBE_FILES:
         text = (CORPUS / fn).read_text()
-        muts = list(fe.table_row_deletions(text)) + [(k, m) for k, m in fe.token_substitutions(text, menu=["DEC1"], max_tokens=None if thorough else 60)]
+        muts = list(fe.table_row_deletions(text)) + [(k, m) for k, m in fe.token_substitutions(text, menu=["DEC1"], max_tokens=150 if thorough else 60)]
         if not thorough:
             muts = muts[:: max(1, len(muts) // 20)]
         out += [(fn, fmt, key, m) for key, m in muts]
@@ -730,8 +730,8 @@ def failed_load_history(ctx):
     for fn, fmt in files:
         text = (CORPUS / fn).read_text()
         muts = list(fe.token_substitutions(text, menu=["abc", "INC1", "ZERO"], max_tokens=None if ctx.thorough else 300)) + list(fe.line_edits(text) if len(text.splitlines()) < 400 else [])
-        if not ctx.thorough:
-            muts = muts[:: max(1, len(muts) // 120)]
+        cap = 400 if ctx.thorough else 120  # every n-th damaged sibling beyond this many per file (the count is in the evidence)
+        muts = muts[:: max(1, len(muts) // cap)]
         jobs += [(fn, fmt, key, m) for key, m in muts]
     pmap(ctx, failed_load_history_worker, jobs, chunk=24)
     ctx.cov.update(failed_load_history_files=[f for f, _ in files], failed_load_history_mutations=len(jobs), failed_load_history_probes=len(history_probes(ctx.thorough)))
@@ -912,7 +912,7 @@ def run(ctx):
         "plus one unrelated load_one inserted at every position of three orders; every frame must equal the frame obtained when the iterator runs alone. "
         "fault history: for 4 (thorough: 12) corpus files every numeric token scaled / every integer token incremented (quick: ~150 per file); the damaged file must give the same outcome "
         "in a fresh child process as in a child that loaded the intact file first. "
-        "failed-load history: for every damaged sibling F (token -> text / +1 / 0, every line deleted / duplicated / swapped; quick ~120 per file) of 4 (thorough: 8) wavefunction files, a child process loads F "
+        "failed-load history: for every damaged sibling F (token -> text / +1 / 0, every line deleted / duplicated / swapped; every n-th so that ~120 (thorough: ~400) remain per file) of 4 (thorough: 8) wavefunction files, a child process loads F "
         "and then a fixed menu of damaged probe files that only late consistency checks can reject (a row missing from every table, every counter decremented; FCHK, WFX, WFN, MOL2); every probe outcome must equal "
         "its outcome in a child without F. "
         "same argument object: every writer's default object, and generated wavefunctions (shell order x conventions x contraction) per wavefunction format, written three times in a row "
